@@ -213,6 +213,11 @@ class CliSim:
                             rows.append([bbox[2] + rng.uniform(5, 9), bbox[3] + rng.uniform(5, 9), 'miss'])
                         else:
                             rows.append([None, None, ''])     # an all-empty CSV row: a point at (NaN, NaN), which misses
+                    if rng.random() < 0.06:
+                        # a long table: the number of points outside the model is a multiple of 256 (an exit status has 8 bits)
+                        n_miss = sum(1 for r_ in rows if r_[2] in ('miss', ''))
+                        for j_ in range(rng.choice([256, 256, 512]) - n_miss):
+                            rows.insert(rng.randint(0, len(rows)), [bbox[2] + 5 + 0.01 * j_, bbox[3] + rng.uniform(5, 9), 'miss'])
                     cols = rng.choice([['lon', 'lat'], ['lon', 'lat'], ['x_pos', 'y_pos']])
                     inv.update({'rows': rows, 'cols': cols, 'policy': rng.choice([None, 'error', 'drop', 'fill']),
                                 'dim': rng.choice([None, None, 'station']), 'out': out_name('.nc')})
@@ -711,7 +716,8 @@ def _cli_lifetime(ctx, group, scratch, tag, file_cache_maxsize=128):
                 emsarray.cli.main(p['argv'])
                 status = 0
             except SystemExit as e:
-                status = e.code if isinstance(e.code, int) else (0 if e.code is None else 1)
+                # what the parent of a real process sees: the low 8 bits of an integer status
+                status = (e.code & 0xFF) if isinstance(e.code, int) else (0 if e.code is None else 1)
             except BaseException as e:   # an exception escaping main() would be a traceback + exit 1 for the user
                 status = 1
                 frame = observe.exc_frame(e)[1]
